@@ -19,11 +19,11 @@ WalletsFull  == { <<>>, <<O(3, 0)>>, <<O(1, 0), O(2, 0)>>, <<O(1, 0), O(2, 0), O
                   <<O(1, 0), O(2, 0), O(2, 0), O(4, 0)>>, <<O(2, 0), O(3, 1)>>, <<O(2, 0), O(1, 2), O(3, 0)>> }
 
 \* ---- JSON projection of a state and of what the public API shows in it
-SJ == [cfg |-> cfg, now |-> now, nid |-> nextId, ntx |-> nextTx,
+SJ == [cfg |-> cfg, now |-> now, nid |-> nextId, ntx |-> nextTx, lag |-> lag,
        owned |-> {[id |-> i, v |-> owned[i].v, m |-> owned[i].m] : i \in DOMAIN owned},
        locked |-> {[id |-> i, e |-> locked[i]] : i \in DOMAIN locked},
        txs |-> {[tid |-> t, ver |-> txs[t].ver, st |-> txs[t].st, ins |-> txs[t].ins, made |-> txs[t].made,
-                 out |-> txs[t].out, fee |-> txs[t].fee, exp |-> txs[t].exp] : t \in TxIds}]
+                 out |-> txs[t].out, fee |-> txs[t].fee, exp |-> txs[t].exp, bl |-> txs[t].bl] : t \in TxIds}]
 OJ == [sp |-> BalSpendable, conf |-> BalConfirmed, imm |-> BalImmature, unc |-> BalUnconfirmed,
        list |-> ListSpendable]
 
@@ -68,7 +68,7 @@ PolicyFund ==
         \/ FundFail(ver, amt, unc)
         \/ LET sel == PolicySel(amt, unc) IN
               /\ amt > 0 /\ SumV(Must(unc)) >= amt
-              /\ FundOK(ver, amt, unc, [tid |-> nextTx, ver |-> ver, ins |-> sel, out |-> amt, fee |-> 0,
+              /\ FundOK(ver, amt, unc, [tid |-> nextTx, ver |-> ver, ins |-> sel, out |-> amt, fee |-> 0, bl |-> lag,
                                         made |-> ChangeOf(SumV(sel) - amt, nextId)])
 
 \* wallet.go:731-794: one transaction per batch of at most Batch wanted outputs, each taking
@@ -103,7 +103,7 @@ PolicySplit ==
                    /\ (IF i \in DOMAIN owned THEN TRUE ELSE MakerVer(i) = 2)
         IN \/ SplitNone(n, mn) /\ above # {} /\ Val(Big(above)) > SplitFee
            \/ SplitErr(n, mn) /\ ~can /\ ~(SplitArgsOK(n, mn) /\ Cardinality(above) >= n /\ Val(Big(above)) > SplitFee)
-           \/ can /\ SplitOK(n, mn, [tid |-> nextTx, ver |-> 2, ins |-> {i}, out |-> 0, fee |-> SplitFee,
+           \/ can /\ SplitOK(n, mn, [tid |-> nextTx, ver |-> 2, ins |-> {i}, out |-> 0, fee |-> SplitFee, bl |-> lag,
                                      made |-> {[id |-> nextId + j - 1, v |-> per] : j \in 1..(r - 1)}
                                               \cup {[id |-> nextId + r - 1, v |-> v - per * (r - 1)]}])
 
@@ -116,6 +116,8 @@ PolicyNext ==
     \/ Mine
     \/ \E x \in Rewards : Reward(x, nextId)
     \/ Restart
+    \/ \E k \in Lags : LagBegin(k)
+    \/ CatchUp
 
 PolicySpec == Init /\ [][PolicyNext]_vars
 \* ticks beyond the reservation period show nothing new
@@ -128,6 +130,7 @@ CfgsR2    == {CfgTiny, CfgDt0}
 \* but insufficient remainder (partial success) / first batch not fundable
 WalletsMB == { <<O(21, 0), O(3, 0)>>, <<O(21, 0), O(1, 0)>>, <<O(21, 0), O(1, 0), O(1, 0), O(1, 0)>>, <<O(5, 0), O(1, 0)>> }
 WalletsMBm == { <<O(2, 0), O(1, 0)>>, <<O(1, 0), O(1, 0), O(2, 0)>>, <<O(3, 0)>> }
+WalletsMBq == { <<O(2, 0), O(1, 0)>>, <<O(3, 0)>> }
 CfgsMB    == {CfgDefault, CfgTiny}
 
 =============================================================================
